@@ -40,6 +40,7 @@ type cfg struct {
 	stages []stageCfg
 	cancel time.Duration // caller cancels at this instant (-1 never)
 	limit  uint64        // max-iterations (0: none)
+	twice  bool          // the same stages worker is run a second time (a second run with the same trigger)
 }
 
 func envNow() string {
@@ -78,7 +79,6 @@ func scenario(c cfg) vrt.Scenario {
 		}}
 		_ = cur
 		as := workers.NewActiveScenario(sc, m, stats, hlib.DiscardLogger(), hlib.DiscardLogrus())
-		mgr := workers.New(c.limit, as)
 		var vs []file.VerifStage
 		for i, s := range c.stages {
 			i := i
@@ -89,18 +89,26 @@ func scenario(c cfg) vrt.Scenario {
 			}
 			vs = append(vs, st)
 		}
-		ctx, cancel := vctx.WithCancel(vctx.Background())
-		defer cancel()
-		if c.cancel >= 0 {
-			vrt.GoNamed("caller-cancel", func() {
-				vtime.Sleep(c.cancel)
-				cancel()
-			})
+		worker := file.VerifStagesWorkerOf(vs)
+		runs := 1
+		if c.twice {
+			runs = 2
 		}
-		file.VerifStagesWorkerOf(vs)(ctx, ui.NewDiscardOutput(), mgr, options.RunOptions{Concurrency: 1})
-		vrt.LogQuiet("worker-returned " + envNow())
-		cancel()
-		vrt.Recv(mgr.WaitForCompletion())
+		for n := 0; n < runs; n++ {
+			mgr := workers.New(c.limit, as)
+			ctx, cancel := vctx.WithCancel(vctx.Background())
+			if c.cancel >= 0 {
+				vrt.GoNamed("caller-cancel", func() {
+					vtime.Sleep(c.cancel)
+					cancel()
+				})
+			}
+			vrt.LogQuiet("run-start")
+			worker(ctx, ui.NewDiscardOutput(), mgr, options.RunOptions{Concurrency: 1})
+			vrt.LogQuiet("worker-returned " + envNow())
+			cancel()
+			vrt.Recv(mgr.WaitForCompletion())
+		}
 	}
 	post := func(o *vrt.Outcome) {
 		switch o.Status {
@@ -111,16 +119,26 @@ func scenario(c cfg) vrt.Scenario {
 			o.Fail("C15/run-crash", "panic", o.Crash)
 			return
 		}
-		last := -1
+		last, runNo := -1, 0
 		for _, ev := range o.Log {
 			f := strings.SplitN(ev, " ", 3)
 			switch f[0] {
+			case "run-start":
+				runNo++
+				last = -1
 			case "eval":
 				var i int
 				fmt.Sscan(f[1], &i)
 				env := ""
 				if len(f) > 2 {
 					env = f[2]
+				}
+				firstRate := 0 // users stages evaluate no rate
+				for firstRate < len(c.stages) && c.stages[firstRate].users > 0 {
+					firstRate++
+				}
+				if last == -1 && i != firstRate {
+					o.Fail("C15/stage-order", "does-not-start-with-the-first-stage", fmt.Sprintf("run %d of the trigger: the first rate evaluated is stage %d's", runNo, i))
 				}
 				if i < last {
 					o.Fail("C15/stage-order", "overlap", fmt.Sprintf("stage %d's rate was evaluated after stage %d had started evaluating", i, last))
@@ -139,10 +157,10 @@ func scenario(c cfg) vrt.Scenario {
 				if env != "" {
 					o.Fail("C15/env-left", "still-set", "after the stages worker returned the environment still has {"+env+"}")
 				}
+				if c.cancel < 0 && c.limit == 0 && last != len(c.stages)-1 && o.Cost == 0 {
+					o.Fail("C15/stage-order", fmt.Sprintf("not-all-stages/run-%d", runNo), fmt.Sprintf("run %d of the trigger: only stages up to %d of %d were run", runNo, last, len(c.stages)))
+				}
 			}
-		}
-		if c.cancel < 0 && c.limit == 0 && last != len(c.stages)-1 && o.Cost == 0 {
-			o.Fail("C15/stage-order", "not-all-stages", fmt.Sprintf("only stages up to %d of %d were run", last, len(c.stages)))
 		}
 		o.Sig = fmt.Sprintf("last=%d events=%d", last, len(o.Log))
 	}
@@ -155,15 +173,17 @@ func scenariosFor(tier string) []vrt.Scenario {
 	ab1 := map[string]string{"VERIF_A": "x", "VERIF_B": "x"}
 	a2 := map[string]string{"VERIF_A": "y", "VERIF_C": "y"}
 	cfgs := []cfg{
-		{"distinct-keys", []stageCfg{{0, a}, {0, b}}, -1, 0},
-		{"overlapping-keys", []stageCfg{{0, ab1}, {0, a2}}, -1, 0},
-		{"overlapping-keys-users-first", []stageCfg{{1, ab1}, {0, a2}}, -1, 0},
-		{"three-stages", []stageCfg{{0, a}, {1, ab1}, {0, a2}}, -1, 0},
-		{"cancel-in-first-stage", []stageCfg{{0, ab1}, {0, a2}}, 150 * time.Millisecond, 0},
-		{"cancel-at-stage-boundary", []stageCfg{{0, ab1}, {0, a2}}, 300 * time.Millisecond, 0},
-		{"no-parameters", []stageCfg{{0, nil}, {0, a}}, -1, 0},
-		{"limit-reached-in-first-stage", []stageCfg{{0, a}, {0, ab1}, {0, a2}}, -1, 2},
-		{"limit-reached-in-users-stage", []stageCfg{{1, ab1}, {0, a2}}, -1, 1},
+		{"distinct-keys", []stageCfg{{0, a}, {0, b}}, -1, 0, false},
+		{"two-runs-of-one-trigger", []stageCfg{{0, a}, {0, ab1}}, -1, 0, true},
+		{"two-runs-of-one-trigger/first-cut-short", []stageCfg{{0, a}, {0, ab1}}, 350 * time.Millisecond, 0, true},
+		{"overlapping-keys", []stageCfg{{0, ab1}, {0, a2}}, -1, 0, false},
+		{"overlapping-keys-users-first", []stageCfg{{1, ab1}, {0, a2}}, -1, 0, false},
+		{"three-stages", []stageCfg{{0, a}, {1, ab1}, {0, a2}}, -1, 0, false},
+		{"cancel-in-first-stage", []stageCfg{{0, ab1}, {0, a2}}, 150 * time.Millisecond, 0, false},
+		{"cancel-at-stage-boundary", []stageCfg{{0, ab1}, {0, a2}}, 300 * time.Millisecond, 0, false},
+		{"no-parameters", []stageCfg{{0, nil}, {0, a}}, -1, 0, false},
+		{"limit-reached-in-first-stage", []stageCfg{{0, a}, {0, ab1}, {0, a2}}, -1, 2, false},
+		{"limit-reached-in-users-stage", []stageCfg{{1, ab1}, {0, a2}}, -1, 1, false},
 	}
 	var out []vrt.Scenario
 	for _, c := range cfgs {
